@@ -34,6 +34,9 @@ R5  segments_polygon            crossing segments: d = 0 and cp lies in the poly
 R6  segment_set                 the all-pairs wrapper (segment_segment_set summarised by its R3 contract): every pair is computed, d[i, j] is the
                                 kernel's distance of the pair, d is symmetric, cp[i, j] is the kernel's point ON i and cp[j, i] its point ON j
                                 (outputs neither swapped nor transposed), d[i, i] = 0 and cp[i, i] lies on segment i; two and three segments.
+R8  scale covariance            the kernels without a tolerance parameter (segment_segment_set, points_segments): in every data-dependent comparison
+                                evaluated on the scenario paths both sides are homogeneous of the same degree in the coordinates (or one side is
+                                zero) - otherwise scaling the input flips the decision and d(k x) != k d(x).
 R7  no-effect normalisation     an expression statement that calls a value-returning array method (reshape, ravel, ...) and drops the
                                 result normalises nothing (sibling functions bind the result).
 Not decided: floating-point accuracy, the tolerance constants (SMALL_TOLERANCE, tol), zero-length segments, which of several
@@ -75,7 +78,7 @@ META = {
     "level_note": "Decides, on the listed paths, that the returned closest points lie on their objects, that the distance is the distance between the "
                   "returned points and that the first-order optimality identities hold; nothing about floating point or tolerances.",
 }
-MIN_INSTANCES = {"R1": 12, "R2": 30, "R3": 100, "R4": 20, "R5": 14, "R6": 8, "R7": 7}
+MIN_INSTANCES = {"R1": 12, "R2": 30, "R3": 100, "R4": 20, "R5": 20, "R6": 8, "R7": 7, "R8": 2}
 
 
 # ------------------------------------------------------------------------------------------------------
@@ -138,6 +141,43 @@ def _dotp(a, b):
 
 
 Q = sp.Rational
+
+
+def _degree(alg: Alg, term, coords: list):
+    """degree of homogeneity of a term in the coordinate symbols, measured at the witness (x -> 2x, 3x); None for a (numerically) vanishing or
+    coordinate-free term, 'mixed' if the term is not homogeneous"""
+    if isinstance(term, (bool, np.bool_)):
+        return None
+    t = sp.sympify(term)
+    if not t.free_symbols:
+        return None if t == 0 else 0
+    import math
+    v1 = alg.num_at(t, {})
+    if not (v1.is_number and v1.is_finite) or abs(v1) < sp.Float(10) ** -30:
+        return None
+    degs = []
+    for lamb in (2, 3):
+        v2 = alg.num_at(t, {c: lamb * alg.numv[c] for c in coords if c in alg.numv})
+        if not (v2.is_number and v2.is_finite) or v2 == 0:
+            return "mixed"
+        degs.append(math.log(abs(float(v2 / v1))) / math.log(lamb))
+    k = round(degs[0])
+    return k if all(abs(x - k) < 1e-9 for x in degs) else "mixed"
+
+
+def _scale_mismatches(sc: Scen, coords: list) -> list:
+    """comparisons evaluated on the path whose two sides depend on the coordinates with different degrees of homogeneity: scaling the input flips them"""
+    out = []
+    for text, l, r in sc.it.cmp_log:
+        la, ra = np.broadcast_arrays(np.asarray(l, dtype=object), np.asarray(r, dtype=object))
+        for a, b in zip(la.ravel(), ra.ravel()):
+            da, db = _degree(sc.alg, a, coords), _degree(sc.alg, b, coords)
+            if da is None or db is None:
+                continue            # a zero side: any degree
+            if da != db:
+                out.append((text, da, db))
+                break
+    return out
 
 
 def _closed_boundary(sc: Scen, sa: np.ndarray, ea: np.ndarray, poly: np.ndarray, shift) -> Optional[str]:
@@ -273,6 +313,7 @@ def _r2(repo, rec: Rec, thorough: bool) -> None:
         configs.append(("three points, three segments, 3-d", 3, [(-2, 1, Q(1, 3)), (14, -1, 2), (4, 3, Q(-1, 2))],
                         [((0, 0, 0), (10, 1, 1)), ((1, 1, 1), (2, 5, 3)), ((4, 4, -1), (4, 2, -1))]))
     seen_states = set()
+    scale_bad: dict = {}
     for lab, nd, pts, segs in configs:
         npt, ns = len(pts), len(segs)
         P, S, E = _symarr("p", (nd, npt)), _symarr("s", (nd, ns)), _symarr("e", (nd, ns))
@@ -311,7 +352,12 @@ def _r2(repo, rec: Rec, thorough: bool) -> None:
                     _ident(rec, "R2", sc, q, pl, "p - cp is orthogonal to the segment (foot of the perpendicular)", [_dotp([x - y for x, y in zip(p, cp)], line)])
                 _ident(rec, "R2", sc, q, pl, "the distance is |p - cp| for the returned cp", [sc.alg.square(D[i, j]) - sum((x - y) ** 2 for x, y in zip(p, cp))])
                 _num_ok(rec, "R2", sc, q, pl, "the distance is non-negative", D[i, j], lambda v: v >= 0)
+        for mm in _scale_mismatches(sc, [x for arr in (P, S, E) for x in arr.ravel()]):
+            scale_bad.setdefault(mm, lab)
         rec.samples.append({"rule": "R2", "scenario": lab, "decisions": sc.it.decisions[:6]})
+    desc = "; ".join(f"`{t}` compares degree {a} with degree {b} [{lab_}]" for (t, a, b), lab_ in list(scale_bad.items())[:4])
+    rec.check("R8", not scale_bad, DI, q, "every data-dependent decision is scale covariant (the projection parameter is compared with 0 and 1)" + ("" if not scale_bad else f" FAILS - {desc}"),
+              f"{q}: decisions are scale covariant")
     if seen_states != {"before the start", "beyond the end", "inside"}:
         rec.undecided.append(Undecided(f"C30 {q}: the scenario table does not cover all foot-point positions ({sorted(seen_states)})"))
 
@@ -348,7 +394,7 @@ def _ss_call(sc: Scen, A0, A1, B0, B1):
 def _r3(repo, rec: Rec, thorough: bool) -> None:
     q = "segment_segment_set"
     exercised: dict = {}
-    parallel_forms = 0
+    scale_bad: dict = {}
     table = list(SS_SCENARIOS)
     if thorough:
         # a fixed pseudo-random batch of 2-d configurations (linear congruential sequence; deterministic): more decision boundaries of the arms
@@ -413,6 +459,9 @@ def _r3(repo, rec: Rec, thorough: bool) -> None:
             else:
                 _num_ok(rec, "R3", sc, q, lab, f"parameter {nm} lies inside [0, 1] (the point is on the segment)", par, lambda v: 0 < v < 1)
                 _ident(rec, "R3", sc, q, lab, f"parameter {nm} is stationary: (cp1 - cp2) is orthogonal to that segment", [grad])
+        coords = [x for arr in (A0, A1, B0) for x in arr.ravel()] + ([] if parallel else [x for x in B1.ravel()])
+        for mm in _scale_mismatches(sc, coords):
+            scale_bad.setdefault(mm, lab)
         rec.samples.append({"rule": "R3", "scenario": lab, "s": str(sp.N(alg.num(s_par), 6)), "t": str(sp.N(alg.num(t_par), 6)),
                             "decisions": [d_ for d_ in sc.it.decisions if "True" in d_[1]][:8]})
     missed = sorted(k[2] for k, v in exercised.items() if not v)
@@ -420,6 +469,10 @@ def _r3(repo, rec: Rec, thorough: bool) -> None:
         raise Undecided(f"C30 {q}: masked stores never exercised by the scenario table (arms not examined): {missed}")
     rec.check("R3", True, DI, q, f"every masked store of the kernel ({len(exercised)}) is exercised by at least one scenario", f"{q}: arm coverage of the scenario table",
               facts={"stores": len(exercised)})
+    desc = "; ".join(f"`{t}` compares degree {a} with degree {b} [{lab_}]" for (t, a, b), lab_ in list(scale_bad.items())[:4])
+    rec.check("R8", not scale_bad, DI, q, "every data-dependent decision of the kernel is scale covariant (both sides of a comparison are homogeneous of the same degree in the "
+              "coordinates, or one side is zero)" + ("" if not scale_bad else f" FAILS - {desc}: scaling the input by a factor flips the decision, so d(k x) != k d(x) for some k"),
+              f"{q}: decisions are scale covariant", facts={"mismatches": [list(map(str, k)) for k in scale_bad][:8]})
     # several set segments at once (vectorised form): two set segments in different arms
     A0, A1 = _symarr("a", (2,)), _symarr("b", (2,))
     B0, B1 = _symarr("c", (2, 2)), _symarr("d", (2, 2))
@@ -488,7 +541,7 @@ def _r4(repo, rec: Rec, symbolic_rotation: bool) -> None:
     poly = _symarr("v", (3, 4))
     P = _symarr("p", (3, 3))
     wbase = {ca: Q(1, 3), cb: Q(-1, 2), cc: Q(2, 5)}
-    wbase.update(_wset(poly, [[0, 4, 5, 1], [0, 1, 4, 3], [1, 2, 3, 2]]))
+    wbase.update(_wset(poly, [[1, 5, 6, 2], [-1, 3, 7, 4], [8, 9, 11, 10]]))      # a generic first vertex, pairwise different coordinates
     wbase.update(_wset(P, [[2, 9, 3], [2, -3, 1], [7, 1, -4]]))
     for lab, inside in (("first and third point above the polygon, second outside", [True, False, True]), ("all points above the polygon", [True, True, True])):
         calls: list = []
@@ -561,7 +614,7 @@ def _r5(repo, rec: Rec, symbolic_rotation: bool) -> None:
     nrm = [R[2, k] for k in range(3)]
     poly = _symarr("v", (3, 4))
     wrot = {ca: Q(1, 3), cb: Q(-1, 2), cc: Q(2, 5)}
-    wpoly = [[0, 4, 5, 1], [0, 1, 4, 3], [1, 2, 3, 2]]
+    wpoly = [[1, 5, 6, 2], [-1, 3, 7, 4], [8, 9, 11, 10]]      # a generic first vertex, pairwise different coordinates
     Rw = sp.Matrix(3, 3, lambda i, j: sp.sympify(R[i, j]).xreplace(wrot))
     lab_rot = "symbolic rotation" if symbolic_rotation else "exact rational rotation"
     cw = sp.Matrix([sum(Q(x) for x in row) / 4 for row in wpoly])
@@ -617,9 +670,14 @@ def _r5(repo, rec: Rec, symbolic_rotation: bool) -> None:
         _ident(rec, "R5", sc, q, lab, "the returned point is the end point accepted by the in-polygon test (a point of the polygon)",
                [cp[r, 0] - want[r] for r in range(3)])
     # (b) segments that do not touch the polygon: the candidates are the two end points and the boundary segments
-    for lab, dvals in (("start point nearest", (2, 5, [7, 4, 6, 9])), ("end point nearest", (5, 2, [7, 4, 6, 9])), ("a boundary segment nearest", (5, 6, [7, 3, 4, 9]))):
+    par = "segment parallel to the polygon plane at height 2 {0} it (the {1} side of the plane normal), end points projecting into the polygon"
+    for lab, dvals, sloc, eloc, inpoly in (("start point nearest", (2, 5, [7, 4, 6, 9]), (7, 1, 2), (9, 2, 3), False),
+                                           ("end point nearest", (5, 2, [7, 4, 6, 9]), (7, 1, 2), (9, 2, 3), False),
+                                           ("a boundary segment nearest", (5, 6, [7, 3, 4, 9]), (7, 1, 2), (9, 2, 3), False),
+                                           (par.format("above", "positive"), (2, 5, [7, 4, 6, 9]), (Q(1, 2), Q(1, 3), 2), (Q(-1, 4), 1, 2), True),
+                                           (par.format("below", "negative"), (5, 2, [7, 4, 6, 9]), (Q(1, 2), Q(1, 3), -2), (Q(-1, 4), 1, -2), True)):
         S, E = _symarr("s", (3, 1)), _symarr("e", (3, 1))
-        wit = {**wrot, **_wset(poly, wpoly), **_wset(S, [[x] for x in world((7, 1, 2))]), **_wset(E, [[x] for x in world((9, 2, 3))])}
+        wit = {**wrot, **_wset(poly, wpoly), **_wset(S, [[x] for x in world(sloc)]), **_wset(E, [[x] for x in world(eloc)])}
         pp_calls: list = []
         ss_calls: list = []
         syms = {}
@@ -647,12 +705,16 @@ def _r5(repo, rec: Rec, symbolic_rotation: bool) -> None:
                 it.alg.numv[C1[ix]] = Q(2 + ix[0] + 3 * ix[1], 5)
                 it.alg.numv[C2[ix]] = Q(-1 - ix[0] - 2 * ix[1], 7)
             return D.copy(), C1.copy(), C2.copy()
-        sc = Scen(repo, wit, {"project_plane_matrix": _rot_stub([], R), "point_in_polygon": lambda it, a, k, n: np.zeros(np.shape(a[1])[1], dtype=bool),
+        sc = Scen(repo, wit, {"project_plane_matrix": _rot_stub([], R), "point_in_polygon": lambda it, a, k, n, inpoly=inpoly: np.full(np.shape(a[1])[1], inpoly, dtype=bool),
                               "points_polygon": pp_stub, "segment_segment_set": ss_stub}, tag="C30")
         ok, out = _run(rec, q, lab, lambda: sc.call(DI, q, [S.copy(), E.copy(), poly.copy()]))
         if not ok:
             continue
         d, cp = out
+        if sloc[2] * eloc[2] > 0:
+            height = min(abs(Q(sloc[2])), abs(Q(eloc[2])))
+            if not _num_ok(rec, "R5", sc, q, lab, f"the distance is at least the distance {height} of the segment from the polygon plane (both end points on one side)", d[0], lambda v, h=float(height): v >= h - 1e-20):
+                continue
         if len(pp_calls) != 2 or len(ss_calls) != 1:
             raise Undecided(f"C30 {q}: expected two point-polygon queries (end points) and one segment-segment query per segment; found {len(pp_calls)}, {len(ss_calls)}")
         # which call received the start points / the end points
@@ -873,6 +935,9 @@ MUTANTS = [
     _m("segments-polygon-crossing-parameter-sign", "    t[non_zero_incline] = -start[2, non_zero_incline] / dz[non_zero_incline]\n", "    t[non_zero_incline] = start[2, non_zero_incline] / dz[non_zero_incline]\n", "R5"),
     _m("segments-polygon-end-query-uses-start", "    d_end_poly, cp_e_p, _ = points_polygon(end, poly)\n", "    d_end_poly, cp_e_p, _ = points_polygon(start, poly)\n", "R5"),
     _m("segments-polygon-distance-not-updated", "            md = ds[min_seg]\n", "            pass\n", "R5"),
+    # independently seeded changes (campaign; seed 1 is the edit of `segseg-parallel-numerator`)
+    _m("seed-segments-polygon-in-plane-test-one-sided", "        np.abs(start[2]) < tol, np.logical_not(non_zero_incline)\n", "        start[2] < tol, np.logical_not(non_zero_incline)\n", "R5"),
+    _m("seed-segments-polygon-roll-without-axis", "        poly_end = np.roll(poly, -1, axis=1)\n", "        poly_end = np.roll(poly, -1)\n", "R5"),
     # R7
     _m("segments-polygon-start-reshape-dropped", "    if start.size < 4:\n        start = start.reshape((-1, 1))\n    if end.size < 4:\n        end = end.reshape((-1, 1))\n\n    num_p = start.shape[1]\n",
        "    if start.size < 4:\n        start.reshape((-1, 1))\n    if end.size < 4:\n        end = end.reshape((-1, 1))\n\n    num_p = start.shape[1]\n", "R7"),
